@@ -2,9 +2,9 @@
 evidence texts per property. Kept apart from the driver so that budgets are in one place."""
 
 
-def leg(name, flavour, shards, cases=None, timeout=900, max_secs=None, optional=False):
+def leg(name, flavour, shards, cases=None, timeout=900, max_secs=None, optional=False, pregen=False):
     return {"name": name, "flavour": flavour, "shards": shards, "cases": cases, "timeout": timeout,
-            "max_secs": max_secs, "optional": optional}
+            "max_secs": max_secs, "optional": optional, "pregen": pregen}
 
 
 COMMON_ASSUMPTIONS = [
@@ -33,17 +33,32 @@ PROPS = {
             leg("tracing", "reltr", 8, 4000, timeout=600, max_secs=150),
             leg("dbg", "dbg", 8, 2500, timeout=600, max_secs=150),
             leg("asan", "asan", 8, 1500, timeout=600, max_secs=150, optional=True),
-            leg("miri", "miri", 16, 5, timeout=900, max_secs=240),
+            leg("miri", "miri", 16, 6, timeout=900, max_secs=240, pregen=True),
         ],
         "thorough": [
             leg("main", "rel", 16, 250000, timeout=3600, max_secs=1500),
             leg("tracing", "reltr", 16, 60000, timeout=3600, max_secs=1500),
             leg("dbg", "dbg", 16, 40000, timeout=3600, max_secs=1500),
             leg("asan", "asan", 16, 30000, timeout=3600, max_secs=1500, optional=True),
-            leg("miri", "miri", 16, 100, timeout=5400, max_secs=2400),
+            leg("miri", "miri", 16, 300, timeout=5400, max_secs=2400, pregen=True),
         ],
         "min": {"decodes_ok": 1000, "encodes_ok": 500, "objects_slider": 500, "class_noise": 50,
                 "class_bundled-mutant": 50, "enc_utf16le-bom": 50, "enc_utf16be-bom": 50, "enc_invalid-utf8": 20},
+    },
+    "C05": {
+        "level": "exploration",
+        "rule": ("exhaustive: every sequence of line kinds up to length 3 (quick) / 4 (thorough) over a 46-kind alphabet (blank, "
+                 "whitespace, comments, 8 version-line kinds, 11 headers, 6 header look-alikes, valid and invalid records of every "
+                 "section, CR / U+3000 / U+0085 endings) in LF/CRLF with and without final newline, a 1/16 sample of them in "
+                 "UTF-8+BOM, UTF-16LE, UTF-16BE; random sequences of length 5-40 in all four encodings; metamorphic filler "
+                 "insertion and CRLF variants. Oracle: Recorder trace == framing model trace, Beatmap == reference driver over "
+                 "the public section parsers. non-trivial = at least one line is dispatched to a section parser; distinct by "
+                 "FNV-64 of the bytes"),
+        "assumptions": COMMON_ASSUMPTIONS + ["the framing model is written from the property statement; std's lossy UTF-8/UTF-16 conversions are the trusted text reference"],
+        "quick": [leg("main", "rel", 16, 4000, timeout=600, max_secs=120)],
+        "thorough": [leg("main", "rel", 16, 100000, timeout=3600, max_secs=1500)],
+        "min": {"dispatched_lines": 10000, "metamorphic_blank-inserted": 1000, "metamorphic_comment-inserted": 1000,
+                "metamorphic_crlf": 1000, "class_enumerated-transcoded": 1000, "explicit_version_seen": 1000},
     },
     "C07": {
         "level": "exploration",
@@ -57,9 +72,41 @@ PROPS = {
         "min": {"decoder_comparisons": 8000, "inputs_with_objects": 500, "inputs_with_timing_points": 500,
                 "inputs_with_colours": 100, "inputs_with_events": 100},
     },
+    "C10": {
+        "level": "exploration",
+        "rule": ("(1) generated and bundled texts transcoded to UTF-8+BOM/UTF-16LE/UTF-16BE must give the UTF-8 trace and Beatmap; "
+                 "(2) every Unicode scalar value (thorough: all 1 112 064, exhaustive; quick: U+0000-U+0FFF, every 16th, every scalar "
+                 "with a 0x0A byte in its UTF-16 unit) as inner and whole Metadata content in all four encodings vs the framing model "
+                 "and vs UTF-8; (3) random invalid-UTF-8 bytes, truncated/overlong sequences, lone/reversed surrogates and every "
+                 "truncation of the last two lines of UTF-16 files vs the model that applies std's lossy conversion per line. "
+                 "non-trivial = a line reaches a section parser (1,2) / a dispatched line contains U+FFFD (3); distinct by FNV-64 of the bytes"),
+        "assumptions": COMMON_ASSUMPTIONS + ["String::from_utf8_lossy and String::from_utf16_lossy are the trusted reference for replacement",
+                                             "a source text that starts with U+FEFF has that character stripped before transcoding (only one BOM is sniffed by design)"],
+        "quick": [leg("main", "rel", 16, 3500, timeout=600, max_secs=150),
+                  leg("asan", "asan", 4, 1500, timeout=600, max_secs=120, optional=True),
+                  leg("miri", "miri", 8, 6, timeout=900, max_secs=240, pregen=True)],
+        "thorough": [leg("main", "rel", 16, 90000, timeout=3600, max_secs=1700),
+                     leg("asan", "asan", 8, 20000, timeout=3600, max_secs=1200, optional=True),
+                     leg("miri", "miri", 16, 200, timeout=5400, max_secs=2400, pregen=True)],
+        "min": {"scalars_checked": 20000, "scalars_with_0a_byte": 500, "scalars_supplementary": 1000, "cross_utf16le-bom": 1000,
+                "texts_with_non_ascii": 500, "damage_invalid_utf8": 1000, "damage_lone_surrogates": 500, "odd_utf16_tails": 1000,
+                "inputs_with_replacement_in_dispatched_line": 500},
+    },
 }
 
 MANIFEST_TEXT = {
+    "C10": {
+        "technique": "runtime monitoring: cross-encoding differential + reference-model oracle (std lossy conversion per line) over every Unicode scalar and random damage; invalid-byte subset under Miri and AddressSanitizer",
+        "level_text": ("Each text is decoded in four encodings and must give identical dispatch traces and maps; every scalar value is pushed through every encoding "
+                       "(exhaustive in thorough); damaged inputs must decode like std's lossy conversion applied per line and never error."),
+        "level_note": "Exhaustive over single scalars, sampled over texts and damage placements. Trusted: std lossy conversions.",
+    },
+    "C05": {
+        "technique": "runtime monitoring: trace-specification checking — Recorder (DecodeBeatmap implementor) records the real driver's line dispatch, compared with an independent framing model; exhaustive small worlds + random long files; metamorphic filler/CRLF relations",
+        "level_text": ("All line-kind sequences up to a bounded length are enumerated (exhaustive: true) and long random ones sampled in all encodings; "
+                       "for each the real dispatch trace must equal the model's and the Beatmap must equal the reference driver's."),
+        "level_note": "Bounded-exhaustive over the alphabet, sampled beyond; the model is hand-written from the statement.",
+    },
     "C01": {
         "technique": "runtime monitoring: hostile-input stress under panic capture, debug-assertions/overflow-checks build, AddressSanitizer and Miri; process-death + progress-file witness; watchdog for non-termination",
         "level_text": ("Every generated input (noise, grammar, mutants, transcodings, every prefix of bundled files) is decoded by all nine "
